@@ -167,7 +167,7 @@ def check_scale(case, ctx: Ctx):
 
 
 POW2 = [2, 4, 8, 0.5, 0.25, 16, 1]
-GENERAL_INT = [3, 5, 7, 10, 6]
+GENERAL_INT = [3, 5, 7, 10, 6, 1000, 5000]  # large factors: products leave the range of the narrow integer types
 GENERAL_FLOAT = [1.5, 0.1, 3.3, 2.5, 1e-3, 1e3, 0.7, 1 / 3]
 
 
@@ -189,6 +189,12 @@ def scalars(draw):
 @st.composite
 def scale_cases(draw, tier="quick"):
     ops = draw(st.lists(st.tuples(st.sampled_from(["mul", "rmul", "div", "imul", "idiv"]), scalars()).map(list), min_size=1, max_size=4))
+    big_seen = False
+    for op in ops:  # at most one large factor per chain: squared errors must stay inside int64 (overflow is out of domain)
+        if op[1][1] >= 1000:
+            if big_seen:
+                op[1][1] = 3
+            big_seen = True
     if draw(st.sampled_from([True, True, False])):
         spec = draw(hgen.hist_spec(dims=(1, 1, 2, 3), dtypes=["int16", "int32", "int64", "float32", "float64"], adaptive=False, nan_missed=False))
         # keep magnitudes inside the exact range of the narrowest type under small chains
